@@ -11,7 +11,7 @@
 From Coq Require Import Uint63 Floats Lia.
 From GL Require Import Common.Bytes Lua.Syntax Lua.Values Lua.Run Lua.LuaCases.
 From GL Require Import VMX.Machine VMX.Step VMX.VRun VMX.VmCases VMX.WfTie VMX.RunSafe VMX.RunInv.
-From GL Require VM.WfProto VM.WfFacts VMX.WfTieFacts VMX.RunSafeFacts VMX.HeapSafeFacts VMX.DiscFacts.
+From GL Require VM.WfProto VM.WfFacts VMX.WfTieFacts VMX.RunSafeFacts VMX.HeapSafeFacts VMX.DiscFacts VMX.RunAssemble.
 Open Scope Z_scope.
 
 Definition p_tfor : xproto := (XProto (w63 [872415234;134479872;134742017;2483028482;134479874;403177475;786432;2080901122;1677852673;1008471041;262151;2416444416;1677852667;2617769984;1;403439620;68157953;1310722;135790597;2081686530;2081685505;2081161728;2214854658;2214592513]%uint63) [VNum 0x1.4p+3%float; VNum 0x1.4p+4%float; VNum 0%float; VStr [112;97;105;114;115]; VStr [101;109;105;116]; VNum 0x1p+0%float] [(XProto (w63 [2617507840;0;335544320;2214854658;2214592513]%uint63) [] [(XProto (w63 [335544320;335806465;1006633472;2214592514;2214592513]%uint63) [] [] 2 0 0 2 [4;4;4;4;4] 4)] 1 1 0 2 [4;4;4;4;4] 4)] 0 0 7 8 [1;1;1;1;2;3;3;3;3;3;3;3;3;4;4;5;5;5;5;5;5;5;6;7] 0).
@@ -106,4 +106,11 @@ Example tfor_run_inv : run_inv (init_vstate p_tfor).
 Proof.
   split; [apply HeapSafeFacts.init_heap_ok; apply tfor_chunk_ok|].
   split; [apply DiscFacts.init_par_ok|constructor].
+Qed.
+
+(* the run-level theorem applies to the dumped prototype: its run on the full machine is not cut off
+   (tfor_not_cut), hence free of out-of-range faults - by the theorem, not by running it *)
+Example tfor_run_noob : fin_noob (run_proto vm_fuel p_tfor).
+Proof.
+  apply RunAssemble.wf_run_noob_uncut_lemma; [apply tfor_chunk_ok|exact tfor_not_cut].
 Qed.
